@@ -150,6 +150,9 @@ def scn(sym, cov, kind, n, modes, cancel=None, native=False, fast=False, eager=F
                         waiting.append(i)
                         on_grant(i, r)
                     else:
+                        if modes[i] == "p":
+                            scope.cancel()  # the caller's scope is already cancelled when acquire() is called
+                            cov.hit("acquire-in-cancelled-scope")
                         waiting.append(i)
                         try:
                             await prim.acquire()
@@ -175,6 +178,17 @@ def scn(sym, cov, kind, n, modes, cancel=None, native=False, fast=False, eager=F
                                 cov.hit("reacquire-rejected")
                             except WouldBlock:
                                 bad("reacquire-wouldblock-instead-of-error", i)
+                            if kind in ("lock", "lim"):
+                                # the blocking variant too (also while other tasks are queued behind the owner)
+                                queued = prim.statistics().tasks_waiting
+                                with anyio.move_on_after(1) as probe:
+                                    try:
+                                        await prim.acquire()
+                                        bad("blocking-reacquire-accepted", {"queued": queued})
+                                    except RuntimeError:
+                                        cov.hit("blocking-reacquire-rejected-with-waiters", queued > 0)
+                                if probe.cancelled_caught:
+                                    bad("blocking-reacquire-queued-behind-itself", {"queued": queued})
                         await anyio.sleep(h[i])
                     finally:
                         holders.remove(i)
